@@ -5,7 +5,8 @@
 //!
 //! fcv-unit quote --templates --shard I/N           option / assignment shaped arguments
 //!
-//! Alphabet: 34 symbols (troublesome bytes / characters, every ASCII character bash gives a meaning to, '-').
+//! Alphabet: 36 symbols (troublesome bytes / characters incl. two C1 controls, every ASCII character bash gives a
+//! meaning to, '-').
 //! Oracles, for every rendering fclones prints (join = Arg::quote per argument, quote(), Path::quote()):
 //!   fclones' split() returns the list; bash (run in a directory of glob bait) returns the list.
 
@@ -50,6 +51,9 @@ pub fn alphabet() -> Vec<Vec<u8>> {
     for c in b"?[]{},;&|<>()-" {
         a.push(vec![*c]);
     }
+    // C1 control characters as valid UTF-8 (NEL U+0085, CSI U+009B)
+    a.push("\u{85}".as_bytes().to_vec());
+    a.push("\u{9b}".as_bytes().to_vec());
     a
 }
 
